@@ -309,6 +309,13 @@ func runSeq(p *DPlan, system string, keepLog bool, prefix string) seqResult {
 			}
 			// reopen oracle: read everything first (C11 a), with both Read and ReadTo
 			if p.Batch != "seq" && (p.Batch != "fault" || faultInOpen) {
+				if isFile && !k.Real && !faultInOpen && !crashed {
+					// "a disk of exactly the requested number of blocks": the backing image too
+					if data, ok := k.ReadFile(path); ok && uint64(len(data)) != rd.N*model.BlockSize {
+						fail(prefix+".reopen.length", "", fmt.Sprintf("round %d: after NewFileDisk(%d blocks) on an image of %d bytes the backing file is %d bytes long, not %d", ri, rd.N, prevLen, len(data), rd.N*model.BlockSize))
+						return
+					}
+				}
 				if faultInOpen {
 					// the backing file must have exactly the requested length
 					if data, ok := k.ReadFile(path); ok && uint64(len(data)) != rd.N*model.BlockSize {
